@@ -102,11 +102,15 @@ PLAN.update({
     'C04s': {
         'fam': 'adisc',
         'inv': ['C20_HandlerAtMostOnce', 'C20_HandlerExactlyOnce',
-                'C20_NoThreadRaises', 'C20_CleanAfterwards'],
-        'quick': ['athr_api+rxdisc_al', 'athr_api+lost_by',
+                'C20_NoThreadRaises', 'C20_CleanAfterwards',
+                'C11_NoCallbackResidue'],
+        'quick': ['athr_emit_cb+lost_al', 'athr_emit_cb+rxdisc+lost_al',
+                  'athr_api+rxdisc_al', 'athr_api+lost_by',
                   'athr_rxdisc+lost_al_2ns', 'athr_api+api_al',
                   'athr_api+rxdisc+lost_al', 'athr_api_other+lost_al_2ns'],
-        'thorough': ['a' + k for k in threads.CONFIGS],
+        'thorough': ['a' + k for k in threads.CONFIGS] + [
+            'athr_emit_cb+lost_al', 'athr_emit_cb+api_al',
+            'athr_emit_cb+rxdisc+lost_al', 'athr_emit_cb+emit_cb+lost_al'],
     },
     'C14p': {
         'fam': 'pubsub',
@@ -276,9 +280,17 @@ FAMILIES = {
                     no_alphabet=True, variants=('threaded',), base_inv=[]),
     'adisc': dict(spec='SrvDisconnectThreads',
                   graph='SrvDisconnectThreadsGraph',
-                  configs={'a' + k: dict(v, alpha='sched', dev=[],
-                                         yield_at=threads.ASYNC_LABELS)
-                           for k, v in threads.CONFIGS.items()},
+                  configs=dict(
+                      {'a' + k: dict(v, alpha='sched', dev=[],
+                                     yield_at=threads.ASYNC_LABELS)
+                       for k, v in threads.CONFIGS.items()},
+                      # an emit with a callback racing the terminations
+                      **{'athr_%s_al' % '+'.join(o): dict(
+                          ops=o, bystander=False, two_ns=False, dev=[],
+                          alpha='sched', yield_at=threads.ASYNC_LABELS)
+                         for o in (['emit_cb', 'lost'], ['emit_cb', 'api'],
+                                   ['emit_cb', 'rxdisc', 'lost'],
+                                   ['emit_cb', 'emit_cb', 'lost'])}),
                   alpha=_ThreadsAlpha, consts=_threads_consts,
                   adapter=lambda c: adisc.AsyncDiscAdapter(c),
                   no_alphabet=True, variants=('asyncio',), base_inv=[]),
